@@ -65,6 +65,8 @@ pub fn ser<T: Serialize>(fmt: &str, t: &T) -> Result<Doc, String> {
         "json" | "json_reader" | "seq_json" => serde_json::to_string(t).map(Doc::Text).map_err(|e| e.to_string()),
         "msgpack_read" => rmp_serde::to_vec(t).map(Doc::Bytes).map_err(|e| e.to_string()),
         "ron" | "ron_value" => ron::to_string(t).map(Doc::Text).map_err(|e| e.to_string()),
+        // RON that spells out struct names (`Nt(5)`), as `PrettyConfig::struct_names(true)` writes it
+        "ron_named" => ron::ser::to_string_pretty(t, ron::ser::PrettyConfig::new().struct_names(true)).map(Doc::Text).map_err(|e| e.to_string()),
         "msgpack" => rmp_serde::to_vec(t).map(Doc::Bytes).map_err(|e| e.to_string()),
         "msgpack_named" => rmp_serde::to_vec_named(t).map(Doc::Bytes).map_err(|e| e.to_string()),
         _ => Err(format!("unknown format {}", fmt)),
@@ -76,7 +78,7 @@ pub fn de<T: DeserializeOwned>(fmt: &str, doc: &Doc) -> Result<T, String> {
         ("json", Doc::Text(s)) => serde_json::from_str(s).map_err(|e| e.to_string()),
         ("json_reader", Doc::Text(s)) => serde_json::from_reader(s.as_bytes()).map_err(|e| e.to_string()),
         ("msgpack_read", Doc::Bytes(b)) => rmp_serde::from_read(&b[..]).map_err(|e| e.to_string()),
-        ("ron", Doc::Text(s)) => ron::from_str(s).map_err(|e| e.to_string()),
+        ("ron", Doc::Text(s)) | ("ron_named", Doc::Text(s)) => ron::from_str(s).map_err(|e| e.to_string()),
         // routes on which the deserializer does NOT call visit_newtype_struct: a self-describing tree (ron::Value) and a
         // deserializer that presents the payload as a one-element sequence (like serde::de::value::SeqDeserializer)
         ("ron_value", Doc::Text(s)) => ron::from_str::<ron::Value>(s).map_err(|e| e.to_string()).and_then(|v| v.into_rust::<T>().map_err(|e| e.to_string())),
